@@ -109,6 +109,16 @@ class CFG(object):
             if self._contains_call(st.test):
                 self._exc_edges(t.id)
             return a + b
+        if isinstance(st, ast.For) and isinstance(st.target, ast.Name) and st.target.id.startswith('__once') and \
+                isinstance(st.iter, ast.Tuple) and len(st.iter.elts) == 1 and not st.orelse:
+            # one-iteration block produced by the canonicaliser for an inlined helper with early returns:
+            # the body runs exactly once, `break` leaves it, falling off its end leaves it (no zero-iteration path, no back edge)
+            head = self._simple(st, dangling, tag, 'stmt')
+            breaks = []
+            self._loops.append((head.id, breaks, len(self._finally)))
+            body_out = self._seq(st.body, [(head.id, None)], tag)
+            self._loops.pop()
+            return body_out + breaks
         if isinstance(st, (ast.For, ast.While)):
             head = self._simple(st, dangling, tag, 'loop')
             breaks = []
